@@ -31,7 +31,7 @@ N = ()
 WORKERS = int(os.environ.get('VERIF_WORKERS', '8'))
 SPEC_PATH = os.path.join(tlc.SPEC_DIR, 'Truncation.tla')
 INVS = ['WellFormed', 'NoInversion', 'Honoured', 'Maximal', 'Priority', 'DroppedOnlyIfForced', 'BudgetRespected',
-        'ReadingsDifferOnlyInMultiplet', 'AccRight', 'SingleErr', 'NumbersSmall', 'ThetaCertified']
+        'ReadingsDifferOnlyInMultiplet', 'AccRight', 'SingleErr', 'NumbersSmall', 'ThetaCertified', 'ScaleInvariant']
 # rational bound <<num, den>> of the spec  ->  degeneracy_tol handed to the implementation
 DEG_TOL = {(1, 1): 0.0, (101, 100): 0.01, (27, 20): 0.3, (11, 7): 0.45}
 CONSTRAINTS = ['chi_max', 'chi_min', 'degeneracy_tol', 'svd_min', 'trunc_cut']
@@ -43,7 +43,8 @@ TOL = 1e-9
 # ------------------------------------------------------------------------------------------------
 def base_consts(**kw):
     c = dict(Vals=set(), MaxLen=0, SortedOnly=True, ChiMaxOpts={N}, ChiMinOpts={N}, DegOpts={N}, SvdOpts={N},
-             CutOpts={N}, Modes={'abs'}, MaxAcc=0, AlgVals=set(), ThetaIds=set(), CutSemantics='budget')
+             CutOpts={N}, Modes={'abs'}, MaxAcc=0, AlgVals=set(), ThetaIds=set(), ScaleOpts={(1, 1)},
+             CutSemantics='budget')
     c.update(kw)
     return c
 
@@ -368,11 +369,12 @@ def phase_vectors(nr, nc, phases):
     return (np.array([1j ** r.randrange(4) for _ in range(nr)]), np.array([1j ** r.randrange(4) for _ in range(nc)]))
 
 
-def build_matrix(blocks, conserve, qtot, labels, key='m', square_conj=False, phases=0):
+def build_matrix(blocks, conserve, qtot, labels, key='m', square_conj=False, phases=0, factor=1.0):
     """npc.Array for the spec's block-diagonal matrix; sector j carries charge blocks[j].q on the row leg."""
     import tenpy.linalg.np_conserved as npc
     from tenpy.linalg.charges import ChargeInfo, LegCharge
     M, ranges = dense_blockdiag(blocks, key)
+    M = M * factor  # the spec's factor of theta (squared for rho = theta theta^dagger): powers of two, exact
     if phases:
         pr, pc = phase_vectors(M.shape[0], M.shape[1], phases)
         M = (pr[:, None] * M * (pr.conj()[None, :] if square_conj else pc[None, :]))
@@ -406,10 +408,20 @@ def sector_pairs_ok(Udense, ranges, values, blocks, scale_tol):
     return None
 
 
-def decomp_expect(res):
-    Ntot = res['nn'] + res['dd']
-    return dict(k=res['k'], kept=sorted(res['kept']), renorm2=res['nn'], eps=res['dd'] / Ntot, N=Ntot,
-                smax=max(res['sigma']))
+def theta_factor(l):
+    sc = l.get('scale', [1, 1])
+    return sc[0] / sc[1]
+
+
+def decomp_expect(l):
+    """expected numbers for theta = c * catalogue matrix: keep-count and eps do not depend on c (the options act on the
+    normalised spectrum), kept singular values scale with c, renormalization^2 = spec's exact renorm2"""
+    res = l['res']
+    c = theta_factor(l)
+    Ntot = (res['nn'] + res['dd']) * c * c
+    renorm2 = res['renorm2'][0] / res['renorm2'][1] if 'renorm2' in res else res['nn'] * c * c
+    return dict(k=res['k'], kept=[x * c for x in sorted(res['kept'])], renorm2=renorm2,
+                eps=res['dd'] / (res['nn'] + res['dd']), N=Ntot, smax=max(res['sigma']) * c, c=c)
 
 
 def check_svd_theta(l, conserve, qtot, with_qtotal_LR, order, phases=0):
@@ -417,10 +429,10 @@ def check_svd_theta(l, conserve, qtot, with_qtotal_LR, order, phases=0):
     from tenpy.linalg.truncation import svd_theta
     res = l['res']
     blocks = [res['blocks'][j] for j in order]
-    theta, M, ranges = build_matrix(blocks, conserve, qtot, ('vL', 'vR'), phases=phases)
+    theta, M, ranges = build_matrix(blocks, conserve, qtot, ('vL', 'vR'), phases=phases, factor=theta_factor(l))
     theta0 = theta.copy(deep=True)
     opts, _ = py_options(l['opt'], 1.0)
-    e = decomp_expect(res)
+    e = decomp_expect(l)
     kw = {}
     if with_qtotal_LR and conserve:
         kw['qtotal_LR'] = [np.array([qtot]), None]
@@ -464,7 +476,7 @@ def check_svd_theta(l, conserve, qtot, with_qtotal_LR, order, phases=0):
         if not np.array_equal(qsum, theta0.qtotal) or ('qtotal_LR' in kw and not np.array_equal(U.qtotal, [qtot])):
             return ('qtotal', (U.qtotal.tolist(), VH.qtotal.tolist()), theta0.qtotal.tolist())
     # charge conservation confines every singular vector to one sector (without charges LAPACK may mix degenerate ones)
-    msg = sector_pairs_ok(Ud, ranges, S * renorm, blocks, tolv) if conserve else None
+    msg = sector_pairs_ok(Ud, ranges, S * renorm / e['c'], blocks, tolv / e['c']) if conserve else None
     if msg:
         return ('kept-values-per-sector', msg, 'each kept column in one sector with a singular value of it')
     if np.linalg.norm(theta.to_ndarray() - M) != 0 or not np.array_equal(theta.qtotal, theta0.qtotal):
@@ -478,9 +490,10 @@ def check_eigh_rho(l, conserve, sort, order, phases=0, UPLO='L'):
     blocks = [res['blocks'][j] for j in order]
     if any(len(b['m']) != len(b['sigma']) for b in blocks):
         return 'skip'  # rho would have exact zero eigenvalues: numerically undefined multiplet structure
-    rho, R, ranges = build_matrix(blocks, conserve, 0, ('p', 'p*'), key='gram', square_conj=True, phases=phases)
+    rho, R, ranges = build_matrix(blocks, conserve, 0, ('p', 'p*'), key='gram', square_conj=True, phases=phases,
+                                  factor=theta_factor(l) ** 2)
     opts, _ = py_options(l['opt'], 1.0)
-    e = decomp_expect(res)
+    e = decomp_expect(l)
     with warnings.catch_warnings():
         warnings.simplefilter('ignore')
         W, V, err = eigh_rho(rho, opts, UPLO=UPLO, sort=sort)
@@ -515,13 +528,14 @@ def check_eigh_rho(l, conserve, sort, order, phases=0, UPLO='L'):
     return None
 
 
-def build_theta_pipes(blocks, conserve, qtot_L, qtot_R, a0, a1, mid_sizes, phases=0):
+def build_theta_pipes(blocks, conserve, qtot_L, qtot_R, a0, a1, mid_sizes, phases=0, factor=1.0):
     """theta with legs [(vL.p0), (p1.vR)] (p0, p1 of dimension 1 with charges a0, a1) whose matrix is the spec's
     block matrix, plus the bond leg between the (fictitious) old tensors T_L [vL,p0,vR], T_R [vL,p1,vR] with
     total charges qtot_L, qtot_R: charge rule of T_L gives q_mid = q_vL + a0 - qtot_L."""
     import tenpy.linalg.np_conserved as npc
     from tenpy.linalg.charges import ChargeInfo, LegCharge
     M, ranges = dense_blockdiag(blocks)
+    M = M * factor
     if phases:
         pr, pc = phase_vectors(M.shape[0], M.shape[1], phases)
         M = pr[:, None] * M * pc[None, :]
@@ -561,10 +575,11 @@ def check_qr(l, conserve, move_right, regime, minblock, qtot_L, qtot_R, order, u
     res = l['res']
     blocks = [res['blocks'][j] for j in order]
     mid_sizes = [len(b['sigma']) if regime != 'partial' else 1 for b in blocks]
-    theta, M, ranges, bond, qL, qR = build_theta_pipes(blocks, conserve, qtot_L, qtot_R, 1, 2, mid_sizes, phases=phases)
+    theta, M, ranges, bond, qL, qR = build_theta_pipes(blocks, conserve, qtot_L, qtot_R, 1, 2, mid_sizes, phases=phases,
+                                                            factor=theta_factor(l))
     Mperm = theta.to_ndarray()  # rows/columns permuted by the pipes: singular values unchanged
     opts, _ = py_options(l['opt'], 1.0)
-    e = decomp_expect(res)
+    e = decomp_expect(l)
     expand, minblock = (1.0, 8) if regime == 'full' else (0.1, minblock)
     with warnings.catch_warnings():
         warnings.simplefilter('ignore')
@@ -682,22 +697,30 @@ def replay_decompose(ctx, hists, quick):
         ident = list(range(nb))
         shuffled = rng.sample(ident, nb)
         plans = []
-        # svd_theta: with / without charges, non-zero qtotal, qtotal_LR, permuted sector order
-        plans.append(('svd_theta', dict(conserve=True, qtot=0, with_qtotal_LR=False, order=ident)))
-        plans.append(('svd_theta', dict(conserve=True, qtot=rng.choice([1, 2, -1]), with_qtotal_LR=rng.random() < 0.5, order=shuffled,
-                                        phases=rng.choice([0, 1 + idx]))))
-        if not quick or idx % 3 == ctx.seed % 3:
-            plans.append(('svd_theta', dict(conserve=False, qtot=0, with_qtotal_LR=False, order=ident)))
-        plans.append(('eigh_rho', dict(conserve=True, sort=rng.choice([None, 'm>', '>', '<']), order=shuffled,
-                                       phases=rng.choice([0, 1 + idx]), UPLO=rng.choice(['L', 'U']))))
-        if not quick or idx % 3 == (ctx.seed + 1) % 3:
-            plans.append(('eigh_rho', dict(conserve=False, sort=None, order=ident)))
+        unit = l.get('scale', [1, 1]) == [1, 1]
+        p_svd = [dict(conserve=True, qtot=0, with_qtotal_LR=False, order=ident),
+                 dict(conserve=True, qtot=rng.choice([1, 2, -1]), with_qtotal_LR=rng.random() < 0.5, order=shuffled,
+                      phases=rng.choice([0, 1 + idx])),
+                 dict(conserve=False, qtot=0, with_qtotal_LR=False, order=ident)]
+        p_eig = [dict(conserve=True, sort=rng.choice([None, 'm>', '>', '<']), order=shuffled,
+                      phases=rng.choice([0, 1 + idx]), UPLO=rng.choice(['L', 'U'])),
+                 dict(conserve=False, sort=None, order=ident)]
         qr_all = [dict(conserve=c, move_right=mr, regime=rg, minblock=mb, qtot_L=qq[0], qtot_R=qq[1], order=ident, use_eig=ue)
                   for c in (True, False) for mr in (True, False)
                   for rg, mb in (('full', 8), ('covered', 0), ('covered', 1), ('partial', 1))
                   for qq in (((0, 0), (1, 0), (0, 1), (2, 1)) if c else ((0, 0),)) for ue in (False, True)]
-        take = rng.sample(qr_all, 3 if quick else 8)
-        plans += [('decompose_theta_qr_based', dict(p, phases=rng.choice([0, 1 + idx]))) for p in take]
+        if not quick:
+            n_svd, n_eig, n_qr = 3, (2 if unit else 1), (8 if unit else 2)
+        elif unit:   # theta as in the catalogue
+            n_svd, n_eig, n_qr = 2 + (idx % 3 == ctx.seed % 3), 1, 2
+        else:        # theta multiplied by the spec's factor (norm far from 1): a lighter plan per case
+            n_svd, n_eig, n_qr = 1, idx % 2, 1 - idx % 2
+        if quick and not unit:
+            plans += [('svd_theta', p_svd[(idx + ctx.seed) % 3])]
+        else:
+            plans += [('svd_theta', p) for p in p_svd[:n_svd]]
+        plans += [('eigh_rho', p) for p in p_eig[:n_eig]]
+        plans += [('decompose_theta_qr_based', dict(p, phases=rng.choice([0, 1 + idx]))) for p in rng.sample(qr_all, n_qr)]
         for fn, p in plans:
             try:
                 if fn == 'svd_theta':
@@ -713,14 +736,14 @@ def replay_decompose(ctx, hists, quick):
                 fail = ('exception', traceback.format_exc()[-1500:], 'a result')
             if fail == 'skip':
                 continue
-            ctx.case((fn, l['theta'], sorted(l['opt'].items()), sorted(p.items())), action='Truncation.decompose.' + fn)
+            ctx.case((fn, l['theta'], l.get('scale'), sorted(l['opt'].items()), sorted(p.items())), action='Truncation.decompose.' + fn)
             n += 1
             if fail is not None:
                 sig = dict(kind='replay', spec='Truncation', op=fn, clause=fail[0])
                 sig.update(classify_decomp(l, fn, p, fail))
                 ctx.violation(sig, dict(case=l, plan=p, got=fail[1], expected=fail[2]))
         if idx % 97 == 5:
-            ctx.sample(dict(spec='Truncation', behaviour=[dict(op='decompose', theta=l['theta'], opt=l['opt'], k=res['k'],
+            ctx.sample(dict(spec='Truncation', behaviour=[dict(op='decompose', theta=l['theta'], scale=l.get('scale'), opt=l['opt'], k=res['k'],
                                                               sigma=res['sigma'], kept=res['kept'])]))
         ctx.trace_ok(1)
     return n
@@ -961,8 +984,10 @@ def check(ctx):
 
     # ---- MC C: decompositions of the catalogue matrices
     if not only or 'decompose' in only:
-        o = option_sets('rel', (3, 2, 3, 2, 3) if quick else (4, 3, 4, 3, 4), random.Random(ctx.seed * 31 + 8))
-        consts = base_consts(Modes={'rel'}, ThetaIds=set(range(1, 10)), **o)
+        o = option_sets('rel', (3, 2, 3, 2, 3) if quick else (4, 3, 3, 3, 4), random.Random(ctx.seed * 31 + 8))
+        # theta = factor * catalogue matrix: the options of the truncated decompositions act on the normalised
+        # spectrum, whatever the norm of theta is (factors are powers of two: the scaled entries stay exact)
+        consts = base_consts(Modes={'rel'}, ThetaIds=set(range(1, 10)), ScaleOpts={(1, 1), (1, 16), (16, 1)}, **o)
         res, dump, d = mc_stage(ctx, 'decompose', consts)
         try:
             n = replay_decompose(ctx, iter_hists(dump), quick)
